@@ -6,7 +6,7 @@
    holds -owner and -admin. *)
 From Coq Require Import List NArith ZArith Bool Arith.
 Import ListNotations.
-Require Import Base.Wire Base.PyStr C03.Model C03.Anti C01.Model.
+Require Import Base.Wire Base.PyStr C03.Model C03.Anti C01.Model C01.Denial.
 Require gen.T01.
 Open Scope N_scope.
 
@@ -141,8 +141,53 @@ Definition defaults_ok (l : list str) : bool :=
 Lemma defaults_current : defaults_ok gen.T01.DEFAULT_CAPS = true.
 Proof. vm_compute. reflexivity. Qed.
 
+(* ---- the denial primitives have the shape the model's error_ / errorNoCapability mirror ---- *)
+(* _error:  if Raise: raise Error(s)   else: return self.error(s, **kwargs) *)
+Definition EXPECTED_ERROR_CHAIN : list (str * str) :=
+  [([82;97;105;115;101], [114;97;105;115;101;32;69;114;114;111;114;40;115;41]); ([101;108;115;101], [114;101;116;117;114;110;32;115;101;108;102;46;101;114;114;111;114;40;115;44;32;42;42;107;119;97;114;103;115;41])].
+(* errorNoCapability:  if 'Raise' not in kwargs: kwargs['Raise'] = True ; ... ;
+                       if s: return self._error(s, **kwargs)   elif kwargs['Raise']: raise Error() *)
+Definition EXPECTED_ENC_CHAIN : list (str * str) :=
+  [([39;82;97;105;115;101;39;32;110;111;116;32;105;110;32;107;119;97;114;103;115], [107;119;97;114;103;115;91;39;82;97;105;115;101;39;93;32;61;32;84;114;117;101]); ([115], [114;101;116;117;114;110;32;115;101;108;102;46;95;101;114;114;111;114;40;115;44;32;42;42;107;119;97;114;103;115;41]); ([107;119;97;114;103;115;91;39;82;97;105;115;101;39;93], [114;97;105;115;101;32;69;114;114;111;114;40;41])].
+(* ReplyIrcProxy.error / NestedCommandsIrcProxy.error: the Raise test comes first and raises *)
+Definition EXPECTED_PROXY_ERROR_RAISE : list (str * str * str) :=
+  [([82;101;112;108;121;73;114;99;80;114;111;120;121], [39;82;97;105;115;101;39;32;105;110;32;107;119;97;114;103;115;32;97;110;100;32;107;119;97;114;103;115;91;39;82;97;105;115;101;39;93], [114;97;105;115;101;32;69;114;114;111;114;40;41]); ([78;101;115;116;101;100;67;111;109;109;97;110;100;115;73;114;99;80;114;111;120;121], [82;97;105;115;101], [114;97;105;115;101;32;69;114;114;111;114;40;115;41])].
+
+Definition triples_eqb (a b : list (str * str * str)) : bool :=
+  Nat.eqb (length a) (length b) &&
+  forallb (fun xy => match xy with ((a1, a2, a3), (b1, b2, b3)) => seq_eqb a1 b1 && seq_eqb a2 b2 && seq_eqb a3 b3 end) (combine a b).
+
+Definition denial_shape_ok : bool :=
+  pairs_eqb gen.T01.ERROR_CHAIN EXPECTED_ERROR_CHAIN && pairs_eqb gen.T01.ENC_CHAIN EXPECTED_ENC_CHAIN
+  && triples_eqb gen.T01.PROXY_ERROR_RAISE EXPECTED_PROXY_ERROR_RAISE.
+Lemma denial_shape_current : denial_shape_ok = true.
+Proof. vm_compute. reflexivity. Qed.
+
+(* ---- every call of errorNoCapability, in src/ and in every plugin, aborts its caller:
+        it passes Raise=True or no Raise keyword at all (the method then sets it to True) ---- *)
+Definition KW_DEFAULT : str := [100;101;102;97;117;108;116].
+Definition KW_TRUE : str := [84;114;117;101].
+Definition site_kw (k : str) : option (option bool) :=
+  if seq_eqb k KW_DEFAULT then Some None else if seq_eqb k KW_TRUE then Some (Some true) else None.
+Definition site_aborts (x : str * str * str) : bool :=
+  match site_kw (snd x) with Some kw => kw_raises kw | None => false end.
+Definition nocap_sites_ok (l : list (str * str * str)) : bool := forallb site_aborts l.
+Lemma nocap_sites_current : nocap_sites_ok gen.T01.NOCAP_SITES = true.
+Proof. vm_compute. reflexivity. Qed.
+Lemma nocap_sites_count : Nat.leb 20 (length gen.T01.NOCAP_SITES) = true.
+Proof. vm_compute. reflexivity. Qed.
+
+Lemma nocap_sites_spec l :
+  nocap_sites_ok l = true ->
+  forall f e k, In (f, e, k) l -> exists kw, site_kw k = Some kw /\ kw_raises kw = true.
+Proof.
+  unfold nocap_sites_ok. intros H f e k Hin. rewrite forallb_forall in H. specialize (H _ Hin).
+  unfold site_aborts in H. cbn [snd] in H. destruct (site_kw k) as [kw|]; [|discriminate]. eauto.
+Qed.
+
 Definition inventory_ok : bool :=
   wraps_ok gen.T01.WRAPS && catches_eqb gen.T01.CATCHES EXPECTED_CATCHES
-  && pairs_eqb (callcmd_uses gen.T01.CALLSITES) EXPECTED_CALLCOMMAND_USES && defaults_ok gen.T01.DEFAULT_CAPS.
+  && pairs_eqb (callcmd_uses gen.T01.CALLSITES) EXPECTED_CALLCOMMAND_USES && defaults_ok gen.T01.DEFAULT_CAPS
+  && denial_shape_ok && nocap_sites_ok gen.T01.NOCAP_SITES.
 Lemma inventory_current : inventory_ok = true.
 Proof. vm_compute. reflexivity. Qed.
